@@ -224,6 +224,43 @@ def cfgOf (hmac : String → String → String) (imp : String → String → Boo
     hasKey := e.hasKey, keyLoads := e.keyLoads, hasPw := e.hasPw, hasUser := e.hasUser,
     kexOK := e.kexOK, accKey := e.accKey, accPw := e.accPw }
 
+/-! ## histories: several `open()` attempts on ONE transport object
+
+  A failed attempt leaves state behind (`self.session`, `self.socket`; `close()` resets the session).
+  Which path through `open()` an attempt takes may depend on that state; the translator therefore lists
+  EVERY path (`Gen.*OpenPaths`, tests other than the strict one taken as free) and an attempt names the
+  path it takes.  known_hosts content and server behaviour belong to the attempt (they may change
+  between attempts). -/
+
+structure TState where
+  sessionLeft : Bool := false   -- `self.session` still references the session object of an earlier attempt
+  channelLeft : Bool := false   -- … and a channel was opened on it
+deriving DecidableEq, Repr
+
+structure Attempt where
+  closeBefore : Bool            -- `close()` is called before this attempt
+  path : List (Call × Bool)     -- the path through `open()` taken this time
+  cfg : Cfg                     -- configuration AT THIS ATTEMPT
+deriving Repr
+
+/-- paramiko / ssh2 assign `self.session` before the handshake; asyncssh when `connect()` has returned
+    (approximated by: a session was opened) — advisory, not compared as a property observable -/
+def sessionAfter (lib : Lib) (t : List Ev) : Bool :=
+  match lib with
+  | .asyncssh => t.contains Ev.openSession
+  | _ => t.contains Ev.kex
+
+def attemptStep (lib : Lib) (st : TState) (a : Attempt) : TState × List Ev :=
+  let st1 : TState := if a.closeBefore then {} else st
+  let t := run lib a.path a.cfg
+  ({ sessionLeft := st1.sessionLeft || sessionAfter lib t,
+     channelLeft := st1.channelLeft || t.contains Ev.openSession }, t)
+
+/-- the traces of the successive attempts -/
+def runHistory (lib : Lib) : TState → List Attempt → List (List Ev)
+  | _, [] => []
+  | st, a :: rest => (attemptStep lib st a).2 :: runHistory lib (attemptStep lib st a).1 rest
+
 /-! ## system transport: `_build_open_cmd` (strict / known-hosts part exact, the rest as it stands) -/
 
 inductive Arg
